@@ -156,11 +156,12 @@ func (channel *Channel) handleIncoming() {
 			case amqp.FrameMethod:
 				buffer.Reset(frame.Payload)
 				method, err := amqp.ReadMethod(buffer, channel.protoVersion)
-				channel.logger.Debug("Incoming method <- " + method.Name())
 				if err != nil {
 					channel.logger.WithError(err).Error("Error on handling frame")
 					channel.sendError(amqp.NewConnectionError(amqp.FrameError, err.Error(), 0, 0))
+					break
 				}
+				channel.logger.Debug("Incoming method <- " + method.Name())
 
 				if err := channel.handleMethod(method); err != nil {
 					channel.sendError(err)
